@@ -62,6 +62,8 @@ def gen_coc(rng, tier, seed):
         'peer': rng.choice(['bumble', 'raw']), 'kind': kind, 'initiator': rng.choice(['node0', 'peer']), 'nchan': nchan,
         'a': a, 'b': b, 'policy': rng.choice(['one', 'bulk', 'zero']), 'cid_top': rng.random() < 0.8,
         'profile': rng.choice(PROFILE_NAMES), 'writes': writes, '_lists': ['writes'],
+        # a final SDU (its size; it usually spans more frames than the credits at hand), written, drained and followed by a close
+        'last_words': rng.choice([0, 0, 40, 150, 900, 5000]),
     }
 
 
@@ -279,6 +281,25 @@ def run_coc(case):
             if dst != 'done':
                 sim.violation_once('drain', f'coc:drain-hang:{facts}', describe_task(t))
                 t.cancel()
+        # last words: write, wait for drain(), close at once - what drain() vouched for has left before the channel is closed
+        if not raw and not sim.violations and case.get('last_words'):
+            ch, peer_i = ends0[0], 0
+            n_before = len(rx1[peer_i])
+            size = max(1, min(b['mtu'], case['last_words']))
+            data = bytes((0xA5 + k) & 0xFF for k in range(size))
+
+            async def say_and_close():
+                ch.write(data)
+                await ch.drain()
+                await ch.disconnect()
+            dst, t = sim.run(say_and_close(), 60.0)
+            sim.loop.settle(vt_budget=5.0)
+            sim.probe('write_drain_close')
+            if dst != 'done':
+                sim.violation_once('lastwords', f'coc:write-drain-close-hangs:{facts}', describe_task(t))
+                t.cancel()
+            elif t.exception() is None and bytes(rx1[peer_i][n_before:]) != data:
+                sim.violation_once('lastwords', f'coc:data-lost-after-drain-returned:{facts}', f'{len(rx1[peer_i]) - n_before} of {size} bytes written before drain() reached the peer; the channel was closed right after drain() returned')
         if raw:
             for e in ends1:
                 for cls, msg in e.violations:
